@@ -449,6 +449,9 @@ func (r *runner) allStrings(e *entry, scope string, prefix, alpha []byte, maxLen
 				x /= int64(len(alpha))
 			}
 			e.run(w, scope, b0+i, in)
+			if ll >= 4 && i == n/3 {
+				r.c.Sample(map[string]any{"scope": scope, "input": fw.HexShort(in)})
+			}
 		})
 		total += n
 	}
